@@ -9,7 +9,7 @@ import sys
 
 V = "/verif"
 ALL = ["C%02d" % i for i in range(1, 21)]
-SCR = "/scratch/seed-detect"
+SCR = "/scratch/seed-detect-%d" % os.getpid()
 
 
 def sh(cmd, **kw):
